@@ -389,7 +389,8 @@ def strip(obj):
                            'events': [{k: e[k] for k in ('e', 'copy', 'rsp') if k in e} for e in c['events']]})
     for c in obj.get('drv', []):
         out['drv'].append({'lg': c['lg'], 'magic': c['magic'], 'ngpu': c['ngpu'],
-                           'allocs': [{'size': a['size'], 'gpu': a['gpu'], 'remap': a.get('remap', [])} for a in c['allocs']],
+                           'allocs': [{'size': a['size'], 'gpu': a['gpu'], 'remap': a.get('remap', []), 'unified': a.get('unified') or [],
+                                       'distribute': a.get('distribute') or []} for a in c['allocs']],
                            'ops': [{'op': o['op'], 'addr': o['addr'], 'data': o.get('data', []), 'n': o.get('n', 0),
                                     'typ': o.get('typ', 'bytes'), 'flush_last': o.get('flush_last', False),
                                     'order': o.get('order') or []} for o in c['ops']]})
